@@ -65,7 +65,9 @@ pub mod polling {
         { unimplemented!() }
     }
     impl Events {
-        #[verifier::external_body] pub fn clear(&mut self) { unimplemented!() }
+        /// the buffer holds no event (ghost)
+        pub uninterp spec fn is_clear(&self) -> bool;
+        #[verifier::external_body] pub fn clear(&mut self) ensures final(self).is_clear(), { unimplemented!() }
     }
     impl Poller {
         /// may-call side for the wait: with which timeout the poller may be waited on (DESIGN 2.12)
@@ -76,6 +78,8 @@ pub mod polling {
         #[verifier::external_body]
         pub fn wait(&self, events: &mut Events, timeout: Option<std::time::Duration>) -> (r: std::io::Result<usize>)
             requires self.may_wait(timeout),
+                     // (`wait` APPENDS to the buffer: events left in it from an earlier wait would be delivered a second time)
+                     old(events).is_clear(),
             ensures self.w_waited(timeout),
         { unimplemented!() }
     }
